@@ -69,6 +69,7 @@ func c15Exec(ndest int, alphabet []string) func(hist []int) (string, string, str
 			refused := 0 // refused writes since the last flush: implementation state the model does not have
 			var refusedOps []string // ... and which calls they were (a refused WriteString is not a refused Write)
 			want := make([][][]byte, ndest)
+			early := make([][][]byte, ndest)
 			for k, op := range hist {
 				name := alphabet[op]
 				steps++
@@ -111,6 +112,11 @@ func c15Exec(ndest int, alphabet []string) func(hist []int) (string, string, str
 					if (ferr != nil) != wantErr {
 						return "flush-error-condition", fmt.Sprintf("%v: flush closed=%v socketClosed=%v: err=%v", histLabels(alphabet, hist[:k+1]), closed, sockClosed, ferr)
 					}
+					// (take what has arrived out of the sockets now: many large datagrams left queued in many sockets
+					// at once run into the kernel's UDP memory limits when all workers are busy)
+					for d, sk := range sinks {
+						early[d] = sk.readAvailable(early[d])
+					}
 					if !closed {
 						if !sockClosed {
 							for d := range want {
@@ -136,7 +142,7 @@ func c15Exec(ndest int, alphabet []string) func(hist []int) (string, string, str
 				}
 			}
 			for d, s := range sinks {
-				got := s.drain(len(want[d]))
+				got := append(early[d], s.drain(len(want[d])-len(early[d]))...)
 				if len(got) != len(want[d]) {
 					return "datagram-count", fmt.Sprintf("%v: destination %d received %d datagrams, %d successful flushes", histLabels(alphabet, hist), d, len(got), len(want[d]))
 				}
